@@ -475,4 +475,4 @@ func (in *Interp) runPath(fn *ssa.Function, prefix []decision, baseCfg *HarnessC
 	return in.ctx.alts
 }
 
-var defaultMergeSet = []string{}
+var defaultMergeSet = []string{"core/trie2/trieutils.BitArray).", "core/trie.BitArray).", "trieutils.findFirstSetBit", "core/trie.findFirstSetBit"}
